@@ -26,6 +26,9 @@ func c07Codec(run *Run, cd *codecDef) {
 		if !run.Thorough() && (perStream >= 7 || (n > 20000 && len(chunks) > 1)) {
 			return
 		}
+		if run.Thorough() && (perStream >= 25 || (n > 20000 && perStream >= 3)) {
+			return
+		}
 		perStream++
 		term := cd.SegTerm(chunks, so)
 		sh.Add(term, rep)
@@ -36,7 +39,7 @@ func c07Codec(run *Run, cd *codecDef) {
 			shBytes = 0
 		}
 	}
-	nstreams := run.N(9, 120)
+	nstreams := run.N(9, 60)
 	for i := 0; i < nstreams; i++ {
 		nfr := 1 + r.Intn(4)
 		var stream []byte
